@@ -124,7 +124,13 @@ impl<'xml> Deserializer<'xml> {
                     DeEvent::Start(x)
                 }
                 Event::End(x) => DeEvent::End(x),
-                Event::Text(x) => DeEvent::Text(x),
+                Event::Text(x) => {
+                    // `]]>` may only end a CDATA section
+                    if memchr::memmem::find(&x, b"]]>").is_some() {
+                        return Err(DeError::InvalidContent);
+                    }
+                    DeEvent::Text(x)
+                }
                 Event::Eof => DeEvent::Eof,
 
                 Event::Empty(x) => {
